@@ -15,7 +15,7 @@ def run(ctx):
     ctx.suites_run.append(oracles.SUITE)
     rng = ctx.rng
     n = 16 if not ctx.thorough else 80
-    ctx.rule("all exported optimizers × continuous tasks and low-cardinality discrete / binary tasks (identical individuals occur) × population 1×/1.5×/2×/3× the documented scale (+0/+1/+3/+7 agents: sizes that are not multiples of group counts) × one algorithm parameter moved inside its validator range in half of the runs (plus a systematic sweep: every accepted candidate value of every algorithm parameter once) × cycle budgets 1..6 × seeds × serial/thread/process with 1..16 workers: "
+    ctx.rule("all exported optimizers × continuous tasks and low-cardinality discrete / binary tasks (identical individuals occur) × population 1×/1.5×/2×/3× the documented scale (+0/+1/+3/+7 agents: sizes that are not multiples of group counts) × one algorithm parameter moved inside its validator range in half of the runs (plus a systematic sweep: every accepted candidate value of every algorithm parameter once) × cycle budgets 1..6 × seeds; two runs per class on an instance that first ran under another population size and was then re-configured through set_config_parameters × serial/thread/process with 1..16 workers: "
              "len(generation) for every generation; a case = one run; non-trivial = ≥ 2 generations")
     js = jobs.make_jobs(rng, optimizers.names(), ["cont-sym", "cont", "cont-zero", "cont-scalars", "disc", "binary", "disc"], n,
                         modes=("serial", "serial", "thread", "process") if not ctx.thorough else ("serial", "thread", "process"),
@@ -25,6 +25,13 @@ def run(ctx):
         for k, v in optimizers.param_variants(name):
             js.append({"name": name, "kind": "cont-sym", "specs": trace.task_specs(rng, "cont-sym", 3), "objective": "sphere", "minmax": "min", "seed": rng.randrange(1, 10 ** 6),
                        "cfg": {"max_cycles": 2, "fitness_error": None, k: v}, "mode": "serial", "trace": False})
+    # re-configured instances: first run under a smaller / larger population, then set_config_parameters(judged configuration)
+    for name in optimizers.names():
+        base = optimizers.CFGS[name][1]["population_size"]
+        for frm, to in ((base, 2 * base), (2 * base + 1, base)):
+            js.append({"name": name, "kind": "cont-sym", "specs": trace.task_specs(rng, "cont-sym", 3), "objective": "sphere", "minmax": "min", "seed": rng.randrange(1, 10 ** 6),
+                       "cfg": {"max_cycles": 3, "fitness_error": None, "population_size": to}, "reconfigure_from": {"max_cycles": 2, "fitness_error": None, "population_size": frm},
+                       "mode": "serial", "trace": False})
     for j in js:
         if j["mode"] != "serial":
             j["workers"] = rng.choice([1, 2, 3, 4, 8, 16])
